@@ -13,7 +13,13 @@
 (***************************************************************************)
 EXTENDS RingQ, Sequences, FiniteSets, FiniteSetsExt
 
-CONSTANT Mant        \* 53 for f64, 24 for f32
+CONSTANT Mant,       \* 53 for f64, 24 for f32
+         Inner       \* the scalar level: InnerF (plain floats) or the descriptor of a scalar dual number type --
+                     \* then every stored scalar is itself a dual number of that type over the rationals
+                     \* (Dual<Dual64>, Dual2<Dual64>, HyperDual<Dual2_64>, ...): DualB instantiated over DualB
+InnerF == [k |-> "F"]
+InnerDual == [k |-> "Dual"]   InnerDual2 == [k |-> "Dual2"]   InnerDual3 == [k |-> "Dual3"]   InnerHyperDual == [k |-> "HyperDual"]
+IsF == Inner.k = "F"
 
 \* F::epsilon() is a token: every non-zero value the calculator can hold is far
 \* above it (denominators are bounded by 2^15), so  x < eps  <=>  x <= 0
@@ -22,7 +28,8 @@ FLtQ(a, b) == IF b = FEpsTok THEN QSign(a) <= 0
               ELSE IF a = FEpsTok THEN QSign(b) > 0
               ELSE QLt(a, b)
 
-B == INSTANCE DualB WITH
+\* the inner level: dual numbers over the rationals
+I == INSTANCE DualB WITH
         SAdd <- QAdd, SSub <- QSub, SMul <- QMul, SDiv <- QDiv, SNeg <- QNeg, SRecip <- QInv,
         SZero <- Q0, SOne <- Q1, SOfQ <- LAMBDA q : q,
         SMulF <- QMul, SDivF <- QDiv, SAddF <- QAdd, SSubF <- QSub,
@@ -31,12 +38,48 @@ B == INSTANCE DualB WITH
         SIsZero <- QIsZero, SIsOne <- LAMBDA t : t = Q1,
         SIsPositive <- LAMBDA t : QSign(t) > 0, SIsNegative <- LAMBDA t : QSign(t) < 0,
         FLt <- FLtQ, FEps <- FEpsTok, FAbs <- QAbs, FOfQ <- LAMBDA q : q
+\* the scalar interface of the outer level: rationals, or numbers of the inner level
+B == INSTANCE DualB WITH
+        SAdd <- LAMBDA a, b : IF IsF THEN QAdd(a, b) ELSE I!AddB(Inner, a, b),
+        SSub <- LAMBDA a, b : IF IsF THEN QSub(a, b) ELSE I!SubB(Inner, a, b),
+        SMul <- LAMBDA a, b : IF IsF THEN QMul(a, b) ELSE I!MulB(Inner, a, b),
+        SDiv <- LAMBDA a, b : IF IsF THEN QDiv(a, b) ELSE I!DivB(Inner, a, b),
+        SNeg <- LAMBDA a : IF IsF THEN QNeg(a) ELSE I!NegB(Inner, a),
+        SRecip <- LAMBDA a : IF IsF THEN QInv(a) ELSE I!RecipB(Inner, a),
+        SZero <- IF IsF THEN Q0 ELSE I!ZeroB(Inner), SOne <- IF IsF THEN Q1 ELSE I!OneB(Inner),
+        SOfQ <- LAMBDA q : IF IsF THEN q ELSE I!FromFB(Inner, q),
+        SMulF <- LAMBDA t, q : IF IsF THEN QMul(t, q) ELSE I!MulFB(Inner, t, q),
+        SDivF <- LAMBDA t, q : IF IsF THEN QDiv(t, q) ELSE I!DivFB(Inner, t, q),
+        SAddF <- LAMBDA t, q : IF IsF THEN QAdd(t, q) ELSE I!AddFB(Inner, t, q),
+        SSubF <- LAMBDA t, q : IF IsF THEN QSub(t, q) ELSE I!SubFB(Inner, t, q),
+        SFun <- LAMBDA fn, t : IF IsF THEN QFun(fn, t) ELSE I!ElemB(Inner, fn, t),
+        SPowi <- LAMBDA t, n : IF IsF THEN QPow(t, n) ELSE I!PowiB(Inner, t, n),
+        SPowf <- LAMBDA t, q : IF IsF THEN QPowf(t, q) ELSE I!PowfB(Inner, t, q, q = QInt(2)),
+        SLog <- LAMBDA t, b : IF IsF THEN QLog(t, b) ELSE I!LogB(Inner, t, b),
+        SAtan2 <- LAMBDA t, u : IF IsF THEN QAtan2(t, u) ELSE I!Atan2B(Inner, t, u),
+        SRe <- LAMBDA t : IF IsF THEN t ELSE I!ReB(t),
+        SIsZero <- LAMBDA t : IF IsF THEN QIsZero(t) ELSE I!IsZeroB(t),
+        SIsOne <- LAMBDA t : IF IsF THEN t = Q1 ELSE I!IsOneB(t),
+        SIsPositive <- LAMBDA t : IF IsF THEN QSign(t) > 0 ELSE I!IsPositiveB(t),
+        SIsNegative <- LAMBDA t : IF IsF THEN QSign(t) < 0 ELSE I!IsNegativeB(t),
+        FLt <- FLtQ, FEps <- FEpsTok, FAbs <- QAbs, FOfQ <- LAMBDA q : q
 
 ---------------------------------------------------------------------------
 (* the scalars stored in a value, and fixed-point widths *)
-DScalars(d) == IF d.p THEN {d.m[ij[1]][ij[2]] : ij \in B!MatEntries(d.m)} ELSE {}
+\* the rationals inside one stored scalar (itself, or the parts of the inner number)
+Rats(t) == IF IsF THEN {t} ELSE {t.re} \cup {t[f] : f \in I!FieldSet(Inner)}
+DScalars(d) == IF d.p THEN UNION {Rats(d.m[ij[1]][ij[2]]) : ij \in B!MatEntries(d.m)} ELSE {}
 Scalars(ty, v) ==
-    {v.re} \cup UNION {IF B!IsVec(ty) THEN DScalars(v[f]) ELSE {v[f]} : f \in B!FieldSet(ty)}
+    Rats(v.re) \cup UNION {IF B!IsVec(ty) THEN DScalars(v[f]) ELSE Rats(v[f]) : f \in B!FieldSet(ty)}
+\* the innermost real part (a rational)
+ReQ(v) == B!ReB(v)
+\* nesting: a product of k stored scalars is a product of k inner numbers, each part of which is a sum of products
+\* of k rationals (one per factor) -- the degree stays k; an inner number produced by an inner chain rule or
+\* reciprocal has parts of degree <= Order(Inner) in the inner parts, hence the factor; the number of terms grows.
+\* (Nested runs use Mant = 53 only: the bound MantEff = 30 that keeps TLC inside its integers leaves 23 bits of
+\*  slack against the float mantissa.)
+NDeg(d) == IF IsF THEN d ELSE d * I!Order(Inner) + I!Order(Inner)
+NTb(t)  == IF IsF THEN t ELSE t + 2 + 2 * I!Order(Inner)
 
 SetMax(S) == CHOOSE x \in S : \A y \in S : y <= x
 \* bits needed to write all rationals of S as integers over their common
@@ -56,17 +99,17 @@ TWidth(S) ==
 \* terms in the scalars S is exact under ANY evaluation order when every partial
 \* product / sum fits the mantissa; the bound 30 keeps TLC itself free of overflow.
 MantEff == IMin(Mant, 30)
-ExactOK(deg, tb, S) == AllDyadic(S) /\ deg * TWidth(S) + tb + 1 <= MantEff
+ExactOK(deg, tb, S) == AllDyadic(S) /\ NDeg(deg) * TWidth(S) + NTb(tb) + 1 <= MantEff
 
 ---------------------------------------------------------------------------
 (* exactness / domain guards of the primitive stages *)
 GAdd(ty, a, b) == ExactOK(1, 1, Scalars(ty, a) \cup Scalars(ty, b))
 GMul(ty, a, b) == ExactOK(2, 3, Scalars(ty, a) \cup Scalars(ty, b))
-GDiv(ty, a, b) == /\ IsPM2k(b.re)
+GDiv(ty, a, b) == /\ IsPM2k(ReQ(b))
                   /\ ExactOK(2 * (B!Order(ty) + 1), 4, Scalars(ty, a) \cup Scalars(ty, b))
 GMulF(ty, a, s) == ExactOK(2, 0, Scalars(ty, a) \cup {s})
 GDivF(ty, a, s) == IsPM2k(s) /\ ExactOK(2, 0, Scalars(ty, a) \cup {s})
-TowerScalars(f, ord) == {f[k] : k \in 1..(ord + 1)}
+TowerScalars(f, ord) == UNION {Rats(f[k]) : k \in 1..(ord + 1)}
 GChain(ty, x, f) ==
     ExactOK(B!Order(ty) + 1, 3, Scalars(ty, x) \cup TowerScalars(f, B!Order(ty)))
 
@@ -81,23 +124,23 @@ ElemPoint(fn, re) ==
       [] OTHER -> FALSE
 ExactElemFns == {"recip", "sqrt", "exp", "exp_m1", "sin", "cos", "sinh", "cosh", "asin", "atan",
                  "asinh", "atanh", "ln_1p", "ln"}
-GElem(ty, fn, x) == /\ ElemPoint(fn, x.re)
-                    /\ (TWidth({x.re}) - 1) * (B!Order(ty) + 2) <= 24      \* TLC can hold the tower (powers of re)
+GElem(ty, fn, x) == /\ ElemPoint(fn, ReQ(x))
+                    /\ (TWidth({ReQ(x)}) - 1) * (NDeg(B!Order(ty) + 2)) <= 24      \* TLC can hold the tower (powers of re)
                     /\ GChain(ty, x, B!TowerB(fn, x.re, B!Order(ty)))
 GPowi(ty, x, n) ==
     CASE n = 0 -> TRUE
       [] n = 1 -> TRUE
       [] n = 2 -> GMul(ty, x, x)
-      [] OTHER -> /\ IsPM2k(x.re) /\ IAbs(n) <= 12
-                  /\ (TWidth({x.re}) - 1) * (IAbs(n) + 3) <= 24       \* TLC can hold re^(n-3)
+      [] OTHER -> /\ IsPM2k(ReQ(x)) /\ IAbs(n) <= 12
+                  /\ (TWidth({ReQ(x)}) - 1) * (IAbs(n) + 3 + (IF IsF THEN 0 ELSE 3)) <= 24       \* TLC can hold re^(n-3)
                   /\ GChain(ty, x, B!PowiTowerB(x.re, n, B!Order(ty)))
 GPowf(ty, x, q) ==
     CASE QIsZero(q) -> TRUE
       [] q = Q1     -> TRUE
       [] q = QInt(2) -> GMul(ty, x, x)
       [] OTHER -> /\ QIsDyadic(q) /\ IAbs(q[1]) <= 12 * q[2]
-                  /\ ((QIsInt(q) /\ IsPM2k(x.re)) \/ (q[2] = 2 /\ Is4k(x.re)))
-                  /\ (TWidth({x.re}) - 1) * ((IAbs(q[1]) \div q[2]) + 4) <= 24
+                  /\ ((QIsInt(q) /\ IsPM2k(ReQ(x))) \/ (q[2] = 2 /\ Is4k(ReQ(x))))
+                  /\ (TWidth({ReQ(x)}) - 1) * ((IAbs(q[1]) \div q[2]) + 4 + (IF IsF THEN 0 ELSE 3)) <= 24
                   /\ GChain(ty, x, B!PowfTowerB(x.re, q, B!Order(ty)))
 
 ---------------------------------------------------------------------------
@@ -148,12 +191,12 @@ Result(ty, regs, ev) ==
           [] ev.op = "is_negative" -> B!IsNegativeB(a)
           [] ev.op = "re"  -> B!ReB(a)
           \* PartialEq / PartialOrd of the field-compatible types: real parts only
-          [] ev.op = "eq" -> a.re = b.re
-          [] ev.op = "ne" -> a.re # b.re
-          [] ev.op = "lt" -> QLt(a.re, b.re)
-          [] ev.op = "le" -> QLe(a.re, b.re)
-          [] ev.op = "gt" -> QLt(b.re, a.re)
-          [] ev.op = "ge" -> QLe(b.re, a.re)
+          [] ev.op = "eq" -> ReQ(a) = ReQ(b)
+          [] ev.op = "ne" -> ReQ(a) # ReQ(b)
+          [] ev.op = "lt" -> QLt(ReQ(a), ReQ(b))
+          [] ev.op = "le" -> QLe(ReQ(a), ReQ(b))
+          [] ev.op = "gt" -> QLt(ReQ(b), ReQ(a))
+          [] ev.op = "ge" -> QLe(ReQ(b), ReQ(a))
 
 IsObs(op) == op \in Preds \cup Cmps \cup {"re"}
 
@@ -178,7 +221,7 @@ Enabled(ty, regs, ev) ==
           \* is_positive/is_negative of a float look at the SIGN BIT, so they distinguish
           \* +0.0 from -0.0; the rationals have one zero only: sign-dependent operations
           \* at a zero real part are left to the signed-zero cases of the C06 check
-          [] ev.op \in {"abs", "signum", "is_positive", "is_negative"} -> ~QIsZero(a.re)
+          [] ev.op \in {"abs", "signum", "is_positive", "is_negative"} -> ~QIsZero(ReQ(a))
           [] ev.op = "inv" -> GElem(ty, "recip", a)
           [] ev.op = "tan" ->
                 /\ GElem(ty, "sin", a) /\ GElem(ty, "cos", a)
@@ -192,7 +235,7 @@ Enabled(ty, regs, ev) ==
                 /\ GMul(ty, B!ElemB(ty, "ln", a), b)
                 /\ GElem(ty, "exp", B!MulB(ty, B!ElemB(ty, "ln", a), b))
           [] ev.op = "atan2" ->
-                /\ QIsZero(a.re) /\ QSign(b.re) > 0
+                /\ QIsZero(ReQ(a)) /\ QSign(ReQ(b)) > 0
                 /\ GDiv(ty, a, b) /\ GElem(ty, "atan", B!DivB(ty, a, b))
           [] ev.op = "mul_add" -> GMul(ty, a, b) /\ GAdd(ty, B!MulB(ty, a, b), c)
           [] ev.op = "abs_sub" -> GAdd(ty, a, b)
@@ -203,7 +246,7 @@ Enabled(ty, regs, ev) ==
           [] ev.op = "from_f" -> QIsDyadic(ev.s)
           [] ev.op \in {"zero", "one"} -> TRUE
           \* comparisons cross-multiply: keep them inside TLC's integers
-          [] ev.op \in Cmps -> ExactOK(2, 0, {a.re, b.re})
+          [] ev.op \in Cmps -> ExactOK(2, 0, {ReQ(a), ReQ(b)})
           [] IsObs(ev.op) -> TRUE      \* (the sign predicates are handled above)
 
 \* canonical event record (unused fields carry fixed dummies so that all events
